@@ -5621,8 +5621,12 @@ def merge_parts(parts, reassign="voice"):
     note_arrays = [part.note_array(include_staff=True) for part in parts]
     # find the unique number of voices for each part (voice numbers start from 1)
     unique_voices = [np.unique(note_array["voice"]) for note_array in note_arrays]
-    # find the unique number of staves for each part
-    unique_staves = [np.unique(note_array["staff"]) for note_array in note_arrays]
+    # find the unique number of staves for each part; a note without staff is
+    # reported as staff 0 by the note array and counts as staff 1
+    unique_staves = [
+        np.unique(np.where(note_array["staff"] == 0, 1, note_array["staff"]))
+        for note_array in note_arrays
+    ]
     # find the maximum number of voices for each part (voice numbers start from 1)
     maximum_voices = [max(unique_voice, default=1) for unique_voice in unique_voices]
     # find the maximum number of staves for each part
@@ -5713,7 +5717,7 @@ def merge_parts(parts, reassign="voice"):
                         # new voice is computed as the sum of voices in staves in previous parts, plus the current
                         e.voice = voice_mapping[e.voice]
                     if isinstance(e, (GenericNote, Words, Direction, Clef)):
-                        e.staff = staff_mapping[e.staff]
+                        e.staff = staff_mapping[e.staff if e.staff is not None else 1]
                 new_part.add(e, start=new_start, end=new_end)
 
                 # new_part.add(copy.deepcopy(e), start=new_start, end=new_end)
